@@ -574,6 +574,7 @@ func TestReplay(t *testing.T) {
 	run.ReplayOne(t, trackSpec)
 	run.ReplayOne(t, streamSpec)
 	run.ReplayOne(t, bigTrackSpec)
+	run.ReplayOne(t, concSpec)
 }
 
 // FuzzIGC is the coverage-guided byte-level target (thorough tier).
